@@ -11,7 +11,7 @@ directory and the observed effects are compared on every path.
 Symbolic: output package and core package names (dotted, segments over {a, b}, up to 3 characters: embedded, nested,
 sibling, prefix-sibling `a` / `ab`, core == output, output inside core), and by solver-decided choice: whether a core
 package is given, how the existing tree was tampered with after a first generation (not at all, a generated file
-modified, deleted, a core file modified, an extra file added), force on/off for the second run, and the stage at which a
+modified, deleted, the package marker deleted, a core file modified, an extra file added), force on/off for the second run, and the stage at which a
 failure is injected (none, load, parse, warnings, each of the emitters incl. the repeated calls, post-processing).
 
 P (history: first generation into an empty project; tamper; second generation):
@@ -41,7 +41,7 @@ from symx.explore import Obligation, Raised, call_catching
 hook.install()
 MOD = "props.c10"
 PKG = ranges_of_pts([ord(c) for c in "ab."])
-TAMPER = ["none", "modify_client", "delete_model", "modify_core", "extra_file"]
+TAMPER = ["none", "modify_client", "delete_model", "modify_core", "extra_file", "delete_init"]
 NFAULT = 13  # 0 = none; 1..12 = the k-th stage call
 
 
@@ -271,7 +271,7 @@ def _run(cg, root, out_pkg, core_pkg, force, spec="spec.json"):
 
 def _tamper_paths(out_parts, core_parts, tamper):
     return {"modify_client": out_parts + ("client.py",), "delete_model": out_parts + ("models", "m.py"), "modify_core": core_parts + ("config.py",),
-            "extra_file": out_parts + ("extra.py",)}.get(tamper)
+            "extra_file": out_parts + ("extra.py",), "delete_init": out_parts + ("__init__.py",)}.get(tamper)
 
 
 def k_history_sym(P, out_pkg, core_pkg, tamper, force2, fault2):
@@ -349,7 +349,7 @@ def k_history_sym(P, out_pkg, core_pkg, tamper, force2, fault2):
     tp = _tamper_paths(out_parts, core_parts, tamper)
     tampered = False
     if tp is not None and o1 == "ok":
-        if tamper == "delete_model":
+        if tamper in ("delete_model", "delete_init"):
             if fs.kind(tp) == "file":
                 fs.unlink(tp)
                 tampered = True
@@ -417,7 +417,7 @@ def k_history_real(P, out_pkg, core_pkg, tamper, force2, fault2):
         tampered = False
         if tp is not None and o1 == "ok":
             p = os.path.join(root, *tp)
-            if tamper == "delete_model":
+            if tamper in ("delete_model", "delete_init"):
                 if os.path.isfile(p):
                     os.unlink(p)
                     tampered = True
@@ -591,6 +591,9 @@ def mk_containment(n):
 def specs(tier):
     q = tier == "quick"
     out = [(MOD, "mk_containment", (n,)) for n in ((1, 2) if q else (1, 2, 3))]
+    from props import c09h
+
+    out.extend(c09h.specs(tier, "c10"))  # with the REAL ExceptionsEmitter: a non-force run never touches the shared registry
     for olen, clen in ([(1, 0), (1, 1), (3, 0), (1, 2), (3, 1)] if q else [(1, 0), (1, 1), (2, 0), (3, 0), (1, 2), (2, 1), (2, 2), (3, 1), (1, 3), (3, 3), (3, 2), (2, 3)]):
         out.append((MOD, "mk_history", (olen, clen)))
     return out
@@ -614,6 +617,19 @@ def run(tier, rep, only=None):
 
 def replay(path):
     v = json.load(open(path))["violation"]
+    if v["obligation"].startswith("shared_core_history"):
+        from props import c09h
+
+        ob, inp = c09h.replay_ob(v)
+        why = ob.verdict(inp, ob.run_real(inp), ob.which)
+        print("replay %s inputs=%r -> %s" % (v["obligation"], inp, "holds" if why is None else why))
+        return 0 if why is None else 1
+    if v["obligation"].startswith("containment"):
+        ob = Containment(int(v["obligation"].split("=")[1]))
+        r = ob.run_real(v["inputs"])
+        ok = bool(ob.prop(v["inputs"], r))
+        print("replay %s inputs=%r -> holds=%s" % (v["obligation"], v["inputs"], ok))
+        return 0 if ok else 1
     parts = v["obligation"].split("/")
     ob = History(int(parts[1].split("=")[1]), int(parts[2].split("=")[1]))
     inp = v["inputs"]
